@@ -82,6 +82,11 @@ impl<'a, 'b> SchemerContext<'a, 'b> {
 
     fn mapping_conjunction_to_schema(&mut self, clause: &Conjunction) -> anyhow::Result<Runtype> {
         let mut acc = vec![];
+        // only negations: they are taken out of the whole basic type, which has to be said
+        // (a bare `Not<..>` union member has no decoder)
+        if clause.positive.is_empty() {
+            acc.push(Runtype::any_object());
+        }
 
         for atom in &clause.positive {
             let mt = match atom {
@@ -130,6 +135,12 @@ impl<'a, 'b> SchemerContext<'a, 'b> {
 
     fn map_conjunction_to_schema(&mut self, clause: &Conjunction) -> anyhow::Result<Runtype> {
         let mut acc = vec![];
+        if clause.positive.is_empty() {
+            acc.push(Runtype::map(
+                Box::new(Runtype::any()),
+                Box::new(Runtype::any()),
+            ));
+        }
 
         for atom in &clause.positive {
             let mt = match atom {
@@ -189,6 +200,9 @@ impl<'a, 'b> SchemerContext<'a, 'b> {
 
     fn list_conjunction_to_schema(&mut self, clause: &Conjunction) -> anyhow::Result<Runtype> {
         let mut acc = vec![];
+        if clause.positive.is_empty() {
+            acc.push(Runtype::any_array_like());
+        }
 
         for atom in &clause.positive {
             let lt = match atom {
@@ -232,6 +246,9 @@ impl<'a, 'b> SchemerContext<'a, 'b> {
 
     fn set_conjunction_to_schema(&mut self, clause: &Conjunction) -> anyhow::Result<Runtype> {
         let mut acc = vec![];
+        if clause.positive.is_empty() {
+            acc.push(Runtype::set(Box::new(Runtype::any())));
+        }
 
         for atom in &clause.positive {
             let lt = match atom {
